@@ -110,6 +110,20 @@ def h_grid(fac, mode):
         c.oblige(tag + ':every box slice is non-empty and inside the data', z3.And(L(r_min) >= 0, L(r_min) < L(r_max), L(r_max) <= L(E['data'].shape[0]), L(c_min) >= 0, L(c_min) < L(c_max), L(c_max) <= W.e), assume=nodeok)
         c.oblige(tag + ':box spans node +- half a box, clipped', z3.And(z3.Or(L(r_min) == 0, L(r_min) == rows.at(k) - E['box'][0].e / 2), L(r_max) <= rows.at(k) + E['box'][0].e / 2,
                                                                        z3.Or(L(c_min) == 0, L(c_min) == cols.at(j) - E['box'][1].e / 2), L(c_max) <= cols.at(j) + E['box'][1].e / 2), assume=nodeok)
+        # masking clause: a pixel farther than box/2 + grid from every blank pixel stays finite. The value at (r, c) is
+        # interpolated from the bracketing nodes only; every data pixel that enters the boxes of those nodes lies within
+        # box//2 + grid (Chebyshev) of (r, c), so a blank farther away cannot reach it.
+        i, rr, q = z3.Int('i'), z3.Int('rr'), z3.Int('q')
+        for nm, ax, Ln, lo, hi, bidx, gstep in (('row', rows, Lr, ra, rb, 0, E['grid'][0]), ('col', cols, Lc, ca, cb, 1, E['grid'][1])):
+            for which in (0, 1):
+                node = ax.at(i + which)
+                if bidx == 0:
+                    bmin, bmax, _, _ = E['boxf'](SN(node), SN(cols.at(z3.IntVal(0))))
+                else:
+                    _, _, bmin, bmax = E['boxf'](SN(rows.at(z3.IntVal(0))), SN(node))
+                pre = [i >= 0, i < Ln - 1, rr >= lo, rr < hi, ax.at(i) <= rr, rr <= ax.at(i + 1), q >= L(bmin), q < L(bmax)]
+                c.oblige(tag + ':every data %s read for the %s bracketing node lies within box//2 + grid of the target %s' % (nm, ('lower', 'upper')[which], nm),
+                         z3.And(q - rr <= E['box'][bidx].e / 2 + gstep.e, rr - q <= E['box'][bidx].e / 2 + gstep.e), assume=pre)
         return dict()
     return h
 
@@ -415,7 +429,7 @@ def run(rep):
         if bad:
             rep.finding('C06/K-dataflow/%s' % cls if cls == 'margin-not-subtracted' else ('C06/K-bscale/%s' % cls if cfg.get('bscale') else 'C06/K-contract/%s' % cls), dict(kind='bane', cfg=cfg), detail)
     rep.end_kernel()
-    rep.not_decided += ['interpolation arithmetic (scipy) and float32 casts', 'sampling-error clause for stationary Gaussian noise', 'pixels farther than box/2+grid from every blank are finite (follows from K-grid box extents + the interpolation contract; not posed as a query)',
+    rep.not_decided += ['interpolation arithmetic (scipy) and float32 casts', 'sampling-error clause for stationary Gaussian noise', 
                         'compressed output (C15)']
 
 
